@@ -123,13 +123,18 @@ pub fn revision_fill(plan: &MigrationPlan, baseline: &[TableDef]) -> Option<Migr
             fill_with,
         } = action
             && fill_with.is_none()
-            && let Some(default) = baseline
+            && let Some(col) = baseline
                 .iter()
                 .find(|t| t.name == *table)
                 .and_then(|t| t.columns.iter().find(|c| c.name == *column))
-                .and_then(|c| c.default.as_ref())
+            && let Some(default) = col.default.as_ref()
         {
-            *fill_with = Some(default.to_sql());
+            let value = default.to_sql();
+            let bare_label = col.r#type.enum_variant_names().is_some()
+                && !value.trim().is_empty()
+                && !value.trim().starts_with('\'')
+                && !value.contains('(');
+            *fill_with = Some(if bare_label { format!("'{}'", value.trim()) } else { value });
         }
     }
     Some(plan)
